@@ -280,3 +280,44 @@ def simulate_behaviours(module, cfg_text, *, depth, num, seed, timeout=300, fiel
             seen.add(k)
             uniq.append(b)
     return uniq, r
+
+
+def dump_edges(module, cfg_text, *, state_expr="view", label_expr="<<act', res'>>", timeout=900, keep_lines=("CONSTRAINT", "VIEW")):
+    """Exhaustive exploration printing every transition of the (view-reduced) state graph as JSON.
+    Returns (inits, edges) where edges = list of (src_key, label, dst_key), states = {key: value}."""
+    mod = module + "Edges"
+    text = (
+        f"---- MODULE {mod} ----\nEXTENDS {module}, Json\n"
+        f'EdgePrint == PrintT(<<"E", ToJson(<<{state_expr}, {label_expr}, ({state_expr})\'>>)>>)\n'
+        f'InitPrint == TLCGet("level") = 1 => PrintT(<<"I", ToJson(<<{state_expr}>>)>>)\n====\n'
+    )
+    cfg = cfg_constants(cfg_text)
+    for line in cfg_text.splitlines():
+        if line.strip().startswith(keep_lines):
+            cfg += line + "\n"
+    cfg += "CONSTRAINT InitPrint\nACTION_CONSTRAINT EdgePrint\nCHECK_DEADLOCK FALSE\n"
+    r = run_tlc(mod, cfg_text=cfg, workers=1, timeout=timeout, extra_modules=[(mod + ".tla", text)])
+    if "states" not in r or r["errors"]:
+        raise TLCError(f"edge dump of {module} failed:\n" + r["out"][-3000:])
+    states, edges, inits = {}, [], []
+    seen_edges = set()
+
+    def key(v):
+        k = json.dumps(v, sort_keys=True)
+        if k not in states:
+            states[k] = v
+        return k
+
+    for line in r["out"].splitlines():
+        if line.startswith('<<"E", "'):
+            s, lab, t = json.loads(json.loads(line[7:-2]))
+            e = (key(s), json.dumps(lab, sort_keys=True), key(t))
+            if e not in seen_edges:
+                seen_edges.add(e)
+                edges.append((e[0], lab, e[2]))
+        elif line.startswith('<<"I", "'):
+            (s,) = json.loads(json.loads(line[7:-2]))
+            k = key(s)
+            if k not in inits:
+                inits.append(k)
+    return inits, edges, states, r
